@@ -383,8 +383,9 @@ def shift_closure_rule(ctx, facts, cfg, rid):
                         continue
                     if any(C.bounds(d - a) == (0, 0) for a in amounts):
                         saw_shift = True
-                        if cursors and not any(C.entails(ge(x, c)) for c in cursors):
-                            problems.append(('shift-unconfined', 'shifts the offset on a path not confined to offsets at or behind the cursor'))
+                        if cursors and not any(C.entails(ge(x, c + 1)) for c in cursors):
+                            problems.append(('shift-unconfined', 'shifts the offset on a path not confined to offsets strictly behind the cursor (an offset equal to the cursor designates bytes '
+                                                                 'in front of the record, e.g. the empty option area of an OPT record right before it, which do not move)'))
                         continue
                     problems.append(('amount', 'returns x %+s .. %+s, which is neither x nor x + the number of bytes spliced in or out' % C.bounds(d)))
                 if positional and field == 'offset_edns':
